@@ -69,6 +69,15 @@ def readFrame (lines : List Str) : Except Err Frame :=
         else if rows.any (fun r => decide (r.length > h.length)) then .error .parserError
         else .ok ⟨h, rows.map (padRow h.length)⟩
 
+/-- pandas types a column as numeric only if every present cell is a number.  A column holding
+    both numbers and other tokens becomes a column of *strings* (then `"0.00000E+00" != 0`): the
+    cell-wise numeric reading of the table views below is claimed only for frames without such
+    mixed columns.  (Frames read from files that fit their format have none.) -/
+def Frame.mixed (f : Frame) : Bool :=
+  (List.range f.cols.length).any (fun j =>
+    let cells := f.rows.filterMap (fun r => (r[j]?).join)
+    cells.any (fun t => (parseNum t).isSome) && cells.any (fun t => (parseNum t).isNone))
+
 /-! ### NONMEMTableFile.__init__ : splitting on `TABLE NO.` lines -/
 
 def startsWith (p s : Str) : Bool := p.isPrefixOf s
